@@ -403,6 +403,11 @@ pub(crate) enum ConflictResult<T> {
     FailedCondition,
 }
 
+#[cfg(any(kani, caio_foca_verif))]
+#[allow(missing_docs, unreachable_pub, dead_code, unused, private_interfaces, clippy::all)]
+#[path = "/verif/kani/incrate/member_hook.rs"]
+pub(crate) mod verif_hook;
+
 #[cfg(test)]
 mod tests {
 
